@@ -621,6 +621,13 @@ def _memo_slots(ctx: Any) -> Dict[str, FuncInfo]:
     for f in info.methods.values():
         me = f.params[0] if f.params else 'self'
         rets = {self_attr(r.value, me) for r in walk_local_ordered(f.node) if isinstance(r, ast.Return) and r.value is not None}
+        # ... also when the slot is read into a local first (`cached = self._slot ... return cached`)
+        from .common import local_defs as _ld
+
+        ld = _ld(f)
+        for r in walk_local_ordered(f.node):
+            if isinstance(r, ast.Return) and isinstance(r.value, ast.Name):
+                rets |= {self_attr(v, me) for v in ld.get(r.value.id, []) if v is not None}
         stores = {t.attr for t, s in attr_stores(f.node) if self_attr(t, me) and isinstance(s, ast.Assign) and not (isinstance(s.value, ast.Constant) and s.value.value is None)}
         for a in (rets & stores) - {None}:
             out[a] = f  # type: ignore[index]
